@@ -1,5 +1,6 @@
 """C01 -- sum-product of a non-recursive FGG equals its definition."""
 import random, json, warnings
+from fractions import Fraction
 from harness.core import *
 from harness import gen
 from harness.props._sp_util import *
@@ -15,17 +16,31 @@ CHECKFNS = list(CF.values())
 ASSUMPTIONS = [
     "torch kernels (einsum, logsumexp) are represented by their exact-arithmetic meaning; float results are compared with the exact model inside Coq within rtol 1e-9 (float64) / 2e-4 (float32), inf/-inf/0 exactly",
     "Log semiring read through exp: the implementation gets log(v) and exp(output) is compared with the Real model",
+    "the model is the exact mathematics (functions of index tuples): PhysicalAxis sharing, defaults and in-place replacement of weights are implementation-side variations of the SAME mathematical input, so one oracle (Ztab) judges all of them",
 ]
 METHODS = ["fixed-point", "newton", "linear"]
 
-def run_impl(spec, sr, method, ids="explicit", rng=None, via="sum_products", patterned=False, staged=False):
-    """returns {nonterminal index: flat list of observations}"""
+def run_impl(spec, sr, method, ids="explicit", rng=None, via="sum_products", patterned=False, staged=False, history=None):
+    """returns {nonterminal index: flat list of observations}.
+    history: None, or a dict {terminal: other weights of the same shape}: the grammar is first built with THOSE
+    weights and queried; then every factor's weights are replaced in place (FiniteFactor.weights setter on the
+    same factor object) by the weights of `spec`, and the same FGG object
+    is queried again -- the second answer is the one observed."""
     import fggs
     def stage(g):
         with warnings.catch_warnings():
             warnings.simplefilter("ignore")
             fggs.sum_products(g, method=method, semiring=sr.semiring())
-    b = gen.build_fgg(spec, sr.wconv, ids=ids, rng=rng, dtype=sr.torch_dtype(), patterned=patterned, stage=stage if staged else None)
+    first = dict(spec, weights=history) if history else spec
+    b = gen.build_fgg(first, sr.wconv, ids=ids, rng=rng, dtype=sr.torch_dtype(), patterned=patterned, stage=stage if staged else None)
+    if history:
+        stage(b.fgg)
+        for k, el in enumerate(sorted(spec["weights"])):
+            t = gen.weight_tensor(spec, el, sr.wconv, sr.torch_dtype())
+            if patterned == "zero_default":
+                from fggs.indices import PatternedTensor
+                t = PatternedTensor(t, default=sr.wconv(Fraction(0)))
+            b.factors[el].weights = t
     with warnings.catch_warnings():
         warnings.simplefilter("ignore")
         res = fggs.sum_products(b.fgg, method=method, semiring=sr.semiring())
@@ -61,7 +76,7 @@ def run_singleton(spec, sr, method):
         fg.add_edge(fggs.Edge(els[el], [nodes[i] for i in att]))
     fg.ext = [nodes[i] for i in r["ext"]]
     for el, lab in els.items():
-        w = torch.tensor(gen.nested_map(spec["weights"][el], sr.wconv), dtype=sr.torch_dtype())
+        w = gen.weight_tensor(spec, el, sr.wconv, sr.torch_dtype())
         fg.add_factor(lab, fggs.FiniteFactor([fg.domains[nl.name] for nl in lab.type], w))
     g = singleton_fgg(fg)
     with warnings.catch_warnings():
@@ -69,10 +84,10 @@ def run_singleton(spec, sr, method):
         z = fggs.sum_product(g, method=method, semiring=sr.semiring())
     return {0: [sr.obs(x) for x in dense_list(z)]}
 
-def singleton_spec(rng):
+def singleton_spec(rng, p_empty=0.0):
     """one start nonterminal, one rule with terminal edges only (a factor graph)"""
     while True:
-        spec = gen.random_spec(rng, recursive=False, max_nt=1, max_rules=1, max_nodes=4, max_edges=4, dup_ext=False)
+        spec = gen.random_spec(rng, recursive=False, max_nt=1, max_rules=1, max_nodes=4, max_edges=4, dup_ext=False, p_empty=p_empty)
         if len(spec["rules"]) == 1 and all(spec["elabels"][el]["term"] for el, _ in spec["rules"][0]["edges"]):
             used = {el for el, _ in spec["rules"][0]["edges"]}
             # labels that the factor graph never mentions do not exist in singleton_fgg's grammar
@@ -117,10 +132,45 @@ def run(tier, seed):
                 continue
             obs = sorted(out.items())
             bycf[sr.carrier()].append((gw, weights_wire(spec, sr), obs))
-            meta[sr.carrier()].append((spec, sr, method, obs))
+            meta[sr.carrier()].append((spec, sr, method, obs, None))
+    # size-0 domains in every role (attached / unattached, internal / external node; the only label or one of two),
+    # and layered grammars whose nonterminal values are built from the factors their parents use again
+    n_empty = 40 if tier == "quick" else 2500
+    n_layer = 110 if tier == "quick" else 8000
+    PAT = [False, "zero_default", "zero_default", True]
+    extra = [("empty", gen.random_spec(rng, recursive=False, p_empty=1.0)) for _ in range(n_empty)]
+    extra += [("layered", gen.layered_spec(rng, p_empty=0.12)) for _ in range(n_layer)]
+    for i, (kind, spec) in enumerate(extra):
+        key = json.dumps(gen.spec_jsonable(spec), sort_keys=True)
+        distinct.add(key)
+        for f in spec["features"]: feats[f] = feats.get(f, 0) + 1
+        gw = grammar_wire(spec)
+        hist = None
+        if i % 3 == 1:     # same object queried, all weights replaced in place, queried again
+            hist = {el: gen.nested([spec["nlabels"][nl] for nl in spec["elabels"][el]["type"]],
+                                   lambda: rng.choices(gen.LAYER_GRID, gen.LAYER_GRID_P)[0]) for el in spec["weights"]}
+            feats["history_weights_replaced"] = feats.get("history_weights_replaced", 0) + 1
+        for sr in CONFIGS:
+            method = METHODS[(i + len(sr.name)) % 3]
+            ids = ["explicit", "implicit", "mixed"][i % 3]
+            patterned = PAT[i % 4]
+            opts = dict(ids=ids, patterned=patterned, staged=(i % 5 == 2), history=gen.spec_jsonable(dict(spec, weights=hist))["weights"] if hist else None)
+            case = dict(spec=gen.spec_jsonable(spec), semiring=repr(sr), method=method, stream=kind, build=opts)
+            call = "fggs.sum_products(fgg, method=%r, semiring=%r)" % (method, sr)
+            try:
+                out = run_impl(spec, sr, method, ids=ids, rng=rng, via="both", patterned=patterned, staged=(i % 5 == 2), history=hist)
+            except Exception as e:
+                violations.append(Violation("sum_products raised %r" % (e,), case=case,
+                                            call=call, corr="corr:sum_products", oracle="no exception expected on a well-formed non-recursive FGG"))
+                continue
+            obs = sorted(out.items())
+            bycf[sr.carrier()].append((gw, weights_wire(spec, sr), obs))
+            meta[sr.carrier()].append((spec, sr, method, obs, case))
     # factor graphs through singleton_fgg
     for i in range(n // 4):
-        spec = singleton_spec(rng)
+        spec = singleton_spec(rng, p_empty=0.3)
+        for f in spec["features"]:
+            if "empty" in f: feats["singleton:" + f] = feats.get("singleton:" + f, 0) + 1
         gw = grammar_wire(spec)
         for sr in CONFIGS:
             method = METHODS[(i + len(sr.name)) % 3]
@@ -132,16 +182,16 @@ def run(tier, seed):
                 continue
             obs = sorted(out.items())
             bycf[sr.carrier()].append((gw, weights_wire(spec, sr), obs))
-            meta[sr.carrier()].append((spec, sr, method + " via singleton_fgg", obs))
+            meta[sr.carrier()].append((spec, sr, method + " via singleton_fgg", obs, None))
     total = 0
     nk = 0
     for k, vals in bycf.items():
         codes, n_k = run_model(CF[k], vals, seed=seed, coq_sample=12 if tier == "quick" else 60, tag="c01" + k)
         nk += n_k
         total += len(vals)
-        for (spec, sr, method, obs), c in zip(meta[k], codes):
+        for (spec, sr, method, obs, case), c in zip(meta[k], codes):
             if c == 0: continue
-            case = dict(spec=gen.spec_jsonable(spec), semiring=repr(sr), method=method)
+            case = case or dict(spec=gen.spec_jsonable(spec), semiring=repr(sr), method=method)
             call = "fggs.sum_products(fgg, method=%r, semiring=%r)" % (method, sr)
             if c == 1:
                 violations.append(Violation("sum-product differs from the sum over derivations and assignments (Z_spec)", case=case,
@@ -158,11 +208,11 @@ def run(tier, seed):
                                             failing_input_found=False, call=call))
     s0 = meta["real"][0] if meta["real"] else None
     cov = dict(evaluations=total, distinct_nontrivial=len(distinct),
-               rule="random non-recursive FGG specs (harness/gen.py: <=4 nonterminals, <=3 rules each, <=5 nodes, <=4 edges, domain sizes 1-3, weights from {0,1/4,1/2,1,2,3,inf}, forced shapes with prob ~0.15) x {Real f64, Real f32, Log, Viterbi, Bool} x method rotating over fixed-point/newton/linear x explicit/implicit/mixed ids; a quarter of the grammars with sparse PatternedTensor weights (diagonal / expanded) where the values allow, a fifth built in two stages with a query in between (caches keyed on the grammar object); every entry of sum_products compared; distinct_nontrivial = distinct specs with >= 2 rules or a forced shape",
+               rule="random non-recursive FGG specs (harness/gen.py: <=4 nonterminals, <=3 rules each, <=5 nodes, <=4 edges, domain sizes 1-3, weights from {0,1/4,1/2,1,2,3,inf}, forced shapes with prob ~0.15) x {Real f64, Real f32, Log, Viterbi, Bool} x method rotating over fixed-point/newton/linear x explicit/implicit/mixed ids; a quarter of the grammars with sparse PatternedTensor weights (diagonal / expanded) where the values allow, a fifth built in two stages with a query in between (caches keyed on the grammar object); every entry of sum_products compared. PLUS (a) size-0 stream: the same generator with one node label given the EMPTY domain (its own label or the only one), nodes of it attached / unattached, internal / external, a forced unattached internal empty-domain node in about half the rules; also 30% of the singleton_fgg factor graphs; (b) layered stream (gen.layered_spec): few terminal labels reused on every level, nonterminals of arity 1-3 with mostly ONE rule and every node attached (their value is one einsum output that keeps the storage axes of the factors), parents mixing terminals and those nonterminals in random edge order, mostly non-zero weights; both streams rotate dense tensors / PatternedTensor weights whose default already is the semiring zero (-inf for Log/Viterbi, as PatternedTensor.log() gives) / sparse patterns, and a third of their cases is a HISTORY on one FGG object: built with other weights, queried, every factor's weights replaced in place through the FiniteFactor.weights setter, queried again (second answer observed). distinct_nontrivial = distinct specs with >= 2 rules or a forced shape",
                feature_histogram=feats, size_histogram=stats, kernel_reevaluated=nk,
                samples=[dict(spec=gen.spec_jsonable(s0[0]), semiring=repr(s0[1]), method=s0[2], observed=s0[3])] if s0 else [],
                open_items=[
-                   "proved (Props/C01.v, generic in the semiring): C01_check_oracle_sound (verdict 0 => observation accepted against Zk at #nonterminals), C01_Zk_is_tree_sum, C01_enum_trees_spec/NoDup, C02_kleene_is_bounded_depth, C01_Zk_stable, C01_rank_normalise, C01_nonrec_all_trees, C01_spe_eq_rule_val (+ _total_env, _none_is_zero, _body_eq), C01_sum_products_nonrec_Zk, C01_Ztab_is_Zk, C01_sum_products_eq_spec, shape corollaries; composed with C08 and C19 (Proofs/Instances_scc.v, Proofs/Instances.v): C01_nt_graph_closed (the nonterminal graph of every grammar is closed), C01_scc_order_accepted, C01_nonrecursive_iff_ranked, C01_end_to_end (+ _ranked) and the premise-free carrier instances C01_end_to_end_real / _viterbi / _bool, C01_real/_viterbi_sum_products_eq_spec, C01_real/_viterbi_Zk_is_tree_sum, C01_check_oracle_sound_trees and C01_real/_viterbi/_bool_check_oracle_sound(_trees) (verdict 0 => observation accepted against the sum over ALL derivation trees), C01_weights_keys_terminal",
+                   "proved (Props/C01.v, generic in the semiring): C01_empty_domain_node_is_zero / C01_empty_domain_rules_Zk_zero / C01_isolated_internal_node_empty_domain (a node over an empty domain makes the rule -- and the code-shaped model's result -- zero), C01_shared_operand_independent (S(c) -> t(c) X(a,b), X(a,b) -> t(a) u(b): the variables of X are independent of the parent's), C01_check_oracle_sound (verdict 0 => observation accepted against Zk at #nonterminals), C01_Zk_is_tree_sum, C01_enum_trees_spec/NoDup, C02_kleene_is_bounded_depth, C01_Zk_stable, C01_rank_normalise, C01_nonrec_all_trees, C01_spe_eq_rule_val (+ _total_env, _none_is_zero, _body_eq), C01_sum_products_nonrec_Zk, C01_Ztab_is_Zk, C01_sum_products_eq_spec, shape corollaries; composed with C08 and C19 (Proofs/Instances_scc.v, Proofs/Instances.v): C01_nt_graph_closed (the nonterminal graph of every grammar is closed), C01_scc_order_accepted, C01_nonrecursive_iff_ranked, C01_end_to_end (+ _ranked) and the premise-free carrier instances C01_end_to_end_real / _viterbi / _bool, C01_real/_viterbi_sum_products_eq_spec, C01_real/_viterbi_Zk_is_tree_sum, C01_check_oracle_sound_trees and C01_real/_viterbi/_bool_check_oracle_sound(_trees) (verdict 0 => observation accepted against the sum over ALL derivation trees), C01_weights_keys_terminal",
                    "side condition of the end-to-end theorems: the keys of the weight table are terminals (C01_weights_keys_terminal: forallb (fun p => is_term G (fst p)) ws = true suffices); sp_check does not test it, the harness lists only weighted terminals, and a nonterminal key would surface as verdict 20 (see notes/GLUE.md)",
                    "open: the float kernels of torch (einsum, logsumexp) are compared numerically per case, not proved"])
     return cov, violations
@@ -174,6 +224,10 @@ def replay(path):
     sr = [s for s in CONFIGS if repr(s) == c["semiring"]][0]
     if "via singleton_fgg" in c["method"]:
         out = run_singleton(spec, sr, c["method"].split()[0])
+    elif "build" in c:
+        o = c["build"]
+        hist = gen.spec_from_json(dict(c["spec"], weights=o["history"]))["weights"] if o.get("history") else None
+        out = run_impl(spec, sr, c["method"], ids=o["ids"], rng=random.Random(0), patterned=o["patterned"], staged=o["staged"], history=hist)
     else:
         out = run_impl(spec, sr, c["method"])
     code = run_coq(CF[sr.carrier()], [(grammar_wire(spec), weights_wire(spec, sr), sorted(out.items()))], tag="replay")[0]
@@ -182,7 +236,7 @@ def replay(path):
 
 MANIFEST = dict(
     level="proof",
-    text="Coq: the k-th Kleene iterate of the grammar's equations equals the semiring sum over derivation trees of depth <= k of the product of factor weights (any commutative semiring); the code-shaped model of sum_product_edges / F / SCC-ordered driver is tied to it; instances Real/Log (ereal), Viterbi (trop), Bool. Correspondence: every entry of fggs.sum_products on generated non-recursive FGGs is compared inside Coq with both the code-shaped model and the brute-force definition.",
+    text="Coq: the k-th Kleene iterate of the grammar's equations equals the semiring sum over derivation trees of depth <= k of the product of factor weights (any commutative semiring); the code-shaped model of sum_product_edges / F / SCC-ordered driver is tied to it; instances Real/Log (ereal), Viterbi (trop), Bool. Correspondence: every entry of fggs.sum_products on generated non-recursive FGGs (random, with size-0 domains, layered grammars whose nonterminal values share tensor storage with the factors, zero-default PatternedTensor weights, queries repeated on one object after in-place weight replacement) is compared inside Coq with both the code-shaped model and the brute-force definition.",
     note="Trusted: Coq kernel, extraction cross-checked by vm_compute, harness generators/canonicalisation; torch numerics compared within tolerance; open proof items listed in the evidence.",
     technique="Coq proof (sum over derivations = Kleene iterate) + model/implementation correspondence with the definition as oracle",
     design_ref="DESIGN.md section 6, C01")
